@@ -229,6 +229,10 @@ func cmdC04(r *RNG, n int, e *Emitter, args []string) {
 		case 3:
 			s = genRectSoup(r, G, 1+r.Intn(3))
 			c = genRectSoup(r, G, 2+r.Intn(4))
+			if r.Intn(4) == 0 { // bigger soups: records emptied by joins whose split lists refer to each other need 10+ rectangles
+				s = genRectSoup(r, G, 4+r.Intn(3))
+				c = genRectSoup(r, G, 4+r.Intn(3))
+			}
 			info.Kinds = append(info.Kinds, "rect-soup")
 		case 0:
 			s = genNested(r, G)
